@@ -507,4 +507,987 @@ end
 
 end
 
+/-! ## 2. the specification, with directives -/
+
+abbrev SEnv := Spec.Eval.Env
+open SoyVerif.Spec.Eval (Val Out)
+
+section
+-- `F name args x`: what the library function the generator writes for `|name:args` computes from `x`
+variable (F : Bytes → List Expr → JVal → JOut) (ae : Autoescape)
+
+/-- strict in an abrupt argument -/
+def liftF (name : Bytes) (args : List Expr) (x : JOut) : JOut := x.bind (F name args)
+
+/-- the text of a print: the Go renderer's directive loop (Props/C04b `goPrint`: left to right, the
+    escape flag cleared by a cancelling directive, escaping last) on the JSON image of the value,
+    then ToString -/
+def refPrint (dirs : List Directive) (v : Val) : Out Bytes :=
+  match toJsV v with
+  | none => .unspec
+  | some jv =>
+    match C04b.goPrint (liftF F) Gen.directiveTable ae dirs (.val jv) with
+    | some (.val r) => (match toStr? r with
+      | some s => .val s
+      | none => .unspec)
+    | some .error => .error
+    | _ => .unspec
+
+mutual
+  /-- Spec/Eval.renderCmd on the fragment (lexical scoping: what a block binds is visible inside only) -/
+  def refCmd : Cmd → SEnv → Spec.Eval.ROut
+    | .rawText _ t, env => .val (t, env)
+    | .print _ arg dirs, env =>
+      (Spec.Eval.eval env arg).bind fun v => (refPrint F ae dirs v).bind fun s => .val (s, env)
+    | .letValue _ name e, env => (Spec.Eval.eval env e).bind fun v => .val ([], env.bind name v)
+    | .ifc _ conds, env => (refConds conds env).bind fun out => .val (out, env)
+    | _, _ => .unspec
+  def refBlock : Block → SEnv → Out Bytes
+    | .mk _ cmds, env => refCmds cmds env
+  def refCmds : CmdList → SEnv → Out Bytes
+    | .nil, _ => .val []
+    | .cons c rest, env =>
+      (refCmd c env).bind fun r => (refCmds rest r.2).bind fun more => .val (r.1 ++ more)
+  def refConds : CondList → SEnv → Out Bytes
+    | .nil, _ => .val []
+    | .cons _ cond body rest, env =>
+      match cond with
+      | none => refBlock body env
+      | some c => (Spec.Eval.eval env c).bind fun v =>
+          if Spec.Eval.truthy v then refBlock body env else refConds rest env
+end
+
+end
+
+/-! ## 3. running the statements -/
+
+/-! ### generated names -/
+
+theorem natDigits_inj {m m' : Nat} (h : F64.natDigits m = F64.natDigits m') : m = m' := by
+  have h1 := (SoyVerif.Lemmas.JsonValue.natDigits_shape m).2.2.2
+  have h2 := (SoyVerif.Lemmas.JsonValue.natDigits_shape m').2.2.2
+  rw [h] at h1
+  exact h1.symm.trans h2
+
+/-- the counter is part of the name -/
+theorem jsname_inj_n {k k' : Bytes} {m m' : Nat} (hk : k.contains 36 = false) (hk' : k'.contains 36 = false)
+    (h : Scope.jsname k [] m = Scope.jsname k' [] m') : k = k' ∧ m = m' := by
+  have hkk := C04c.jsname_inj hk hk' h
+  subst hkk
+  refine ⟨rfl, natDigits_inj ?_⟩
+  simpa [Scope.jsname] using h
+
+theorem jsname_dollar (k use : Bytes) (m : Nat) : (Scope.jsname k use m).contains 36 = true := by
+  simp [Scope.jsname]
+
+/-! ### the scope invariant: Soy-named entries are `k$m` with `m` at most the counter -/
+
+def Named (n : Nat) (k g : Bytes) : Prop := k.contains 36 = false → ∃ m, m ≤ n ∧ g = Scope.jsname k [] m
+
+def Bounded (sc : Scope) : Prop := ∀ f ∈ sc.stack, ∀ kv ∈ f, Named sc.n kv.1 kv.2
+
+/-- what the walk of a template body keeps: a frame is open, and the names are bounded -/
+def ScOk (sc : Scope) : Prop := sc.stack ≠ [] ∧ Bounded sc
+
+theorem Named.mono {n n' : Nat} {k g : Bytes} (h : Named n k g) (hn : n ≤ n') : Named n' k g := by
+  intro hk
+  obtain ⟨m, hm, e⟩ := h hk
+  exact ⟨m, by omega, e⟩
+
+theorem frameSet_mem : ∀ (f : Frame) (k v : Bytes) (kv : Bytes × Bytes), kv ∈ frameSet f k v → kv = (k, v) ∨ kv ∈ f
+  | [], k, v, kv, h => by simp [frameSet] at h; exact Or.inl h
+  | (k', v') :: r, k, v, kv, h => by
+    unfold frameSet at h
+    split at h
+    · rcases List.mem_cons.mp h with h | h
+      · exact Or.inl h
+      · exact Or.inr (by simp [h])
+    · rcases List.mem_cons.mp h with h | h
+      · exact Or.inr (by simp [h])
+      · rcases frameSet_mem r k v kv h with h | h
+        · exact Or.inl h
+        · exact Or.inr (by simp [h])
+
+theorem frameGet_mem : ∀ (f : Frame) (k v : Bytes), frameGet? f k = some v → (k, v) ∈ f
+  | [], _, _, h => by simp [frameGet?] at h
+  | (k', v') :: r, k, v, h => by
+    unfold frameGet? at h
+    split at h
+    · rename_i hk
+      have : k' = k := by simpa using hk
+      subst this
+      simp only [Option.some.injEq] at h
+      subst h
+      simp
+    · exact List.mem_cons_of_mem _ (frameGet_mem r k v h)
+
+theorem lookupIn_mem : ∀ (st : List Frame) (k v : Bytes), Scope.lookupIn st k = some v → ∃ f ∈ st, (k, v) ∈ f
+  | [], _, _, h => by simp [Scope.lookupIn] at h
+  | f :: r, k, v, h => by
+    unfold Scope.lookupIn at h
+    split at h
+    · rename_i v' hv'
+      simp only [Option.some.injEq] at h
+      subst h
+      exact ⟨f, by simp, frameGet_mem f k _ hv'⟩
+    · obtain ⟨g, hg, hm⟩ := lookupIn_mem r k v h
+      exact ⟨g, by simp [hg], hm⟩
+
+theorem bounded_lookup {sc : Scope} (h : Bounded sc) {k g : Bytes} (hk : k.contains 36 = false)
+    (hl : sc.lookup k = some g) : ∃ m, m ≤ sc.n ∧ g = Scope.jsname k [] m := by
+  obtain ⟨f, hf, hm⟩ := lookupIn_mem sc.stack k g hl
+  exact h f hf (k, g) hm hk
+
+theorem bounded_shape {sc : Scope} (h : Bounded sc) : SoyVerif.Lemmas.JsGenSpec.ScopeShape sc := by
+  intro k g hk hl
+  obtain ⟨m, _, e⟩ := bounded_lookup h hk hl
+  exact ⟨[], m, e⟩
+
+theorem bounded_of_stack {sc sc' : Scope} (h : Bounded sc) (hs : sc'.stack = sc.stack) (hn : sc.n ≤ sc'.n) : Bounded sc' := by
+  intro f hf kv hkv
+  rw [hs] at hf
+  exact (h f hf kv hkv).mono hn
+
+theorem scOk_push {sc : Scope} (h : Bounded sc) : ScOk sc.push := by
+  refine ⟨by simp [Scope.push], ?_⟩
+  intro f hf kv hkv
+  simp only [Scope.push, List.mem_cons] at hf
+  rcases hf with rfl | hf
+  · cases hkv
+  · exact h f hf kv hkv
+
+theorem scOk_makevar {sc : Scope} (h : ScOk sc) (x : Bytes) :
+    ScOk (sc.makevar x).2 ∧ (sc.makevar x).2.stack.tail = sc.stack.tail ∧ (sc.makevar x).2.n = sc.n + 1 := by
+  obtain ⟨hne, hb⟩ := h
+  cases hst : sc.stack with
+  | nil => exact absurd hst hne
+  | cons f st =>
+    refine ⟨⟨by simp [Scope.makevar, Scope.setTop, hst], ?_⟩, by simp [Scope.makevar, Scope.setTop, hst], rfl⟩
+    intro f' hf' kv hkv
+    simp only [Scope.makevar, Scope.setTop, hst, List.mem_cons] at hf'
+    rcases hf' with rfl | hf'
+    · rcases frameSet_mem f x _ kv hkv with rfl | hm
+      · intro _
+        exact ⟨sc.n + 1, Nat.le_refl _, rfl⟩
+      · exact (hb f (by simp [hst]) kv hm).mono (Nat.le_succ _)
+    · exact (hb f' (by simp [hst, hf']) kv hkv).mono (Nat.le_succ _)
+
+/-! ### what the translation does to the scope -/
+
+section
+variable (ae : Autoescape) (buf : Bytes)
+
+mutual
+  theorem toCmd_scope : ∀ (c : Cmd) (sc : Scope) (r : JsStmts × Scope), toCmd ae buf c sc = some r → ScOk sc →
+      ScOk r.2 ∧ r.2.stack.tail = sc.stack.tail ∧ sc.n ≤ r.2.n
+    | .rawText p t, sc, r, h, hs => by
+      simp only [toCmd, Option.some.injEq] at h; subst h
+      exact ⟨hs, rfl, Nat.le_refl _⟩
+    | .print p arg dirs, sc, r, h, hs => by
+      unfold toCmd at h
+      split at h
+      · split at h
+        · simp only [Option.some.injEq] at h; subst h
+          exact ⟨hs, rfl, Nat.le_refl _⟩
+        · cases h
+      · cases h
+    | .letValue p x e, sc, r, h, hs => by
+      unfold toCmd at h
+      split at h
+      · cases h
+      · split at h
+        · simp only [Option.some.injEq] at h; subst h
+          obtain ⟨h1, h2, h3⟩ := scOk_makevar hs x
+          exact ⟨h1, h2, by simp only [h3]; omega⟩
+        · cases h
+    | .ifc p conds, sc, r, h, hs => by
+      unfold toCmd at h
+      split at h
+      · rename_i rc hrc
+        simp only [Option.some.injEq] at h; subst h
+        obtain ⟨h1, h2⟩ := toConds_scope conds sc rc hrc hs
+        exact ⟨⟨by rw [h1]; exact hs.1, bounded_of_stack hs.2 h1 h2⟩, by simp only [h1], h2⟩
+      · cases h
+    | .msg .., _, _, h, _ => by simp [toCmd] at h
+    | .css .., _, _, h, _ => by simp [toCmd] at h
+    | .debugger .., _, _, h, _ => by simp [toCmd] at h
+    | .log .., _, _, h, _ => by simp [toCmd] at h
+    | .forc .., _, _, h, _ => by simp [toCmd] at h
+    | .switch .., _, _, h, _ => by simp [toCmd] at h
+    | .call .., _, _, h, _ => by simp [toCmd] at h
+    | .letContent .., _, _, h, _ => by simp [toCmd] at h
+    | .headerParam .., _, _, h, _ => by simp [toCmd] at h
+    | .namespace .., _, _, h, _ => by simp [toCmd] at h
+    | .template .., _, _, h, _ => by simp [toCmd] at h
+    | .soyDoc .., _, _, h, _ => by simp [toCmd] at h
+  /-- a block leaves the stack as it found it; only the counter moves -/
+  theorem toBlock_scope : ∀ (b : Block) (sc : Scope) (r : JsStmts × Scope), toBlock ae buf b sc = some r → ScOk sc →
+      r.2.stack = sc.stack ∧ sc.n ≤ r.2.n
+    | .mk p cmds, sc, r, h, hs => by
+      unfold toBlock at h
+      split at h
+      · rename_i rc hrc
+        simp only [Option.some.injEq] at h; subst h
+        obtain ⟨_, h2, h3⟩ := toCmds_scope cmds sc.push rc hrc (scOk_push hs.2)
+        exact ⟨by simpa [Scope.pop, Scope.push] using h2, by simpa [Scope.pop, Scope.push] using h3⟩
+      · cases h
+  theorem toCmds_scope : ∀ (cs : CmdList) (sc : Scope) (r : JsStmts × Scope), toCmds ae buf cs sc = some r → ScOk sc →
+      ScOk r.2 ∧ r.2.stack.tail = sc.stack.tail ∧ sc.n ≤ r.2.n
+    | .nil, sc, r, h, hs => by
+      simp only [toCmds, Option.some.injEq] at h; subst h
+      exact ⟨hs, rfl, Nat.le_refl _⟩
+    | .cons c rest, sc, r, h, hs => by
+      unfold toCmds at h
+      split at h
+      · cases h
+      · rename_i r1 h1
+        split at h
+        · cases h
+        · rename_i r2 h2
+          simp only [Option.some.injEq] at h; subst h
+          obtain ⟨a1, a2, a3⟩ := toCmd_scope c sc r1 h1 hs
+          obtain ⟨b1, b2, b3⟩ := toCmds_scope rest r1.2 r2 h2 a1
+          exact ⟨b1, b2.trans a2, Nat.le_trans a3 b3⟩
+  theorem toConds_scope : ∀ (cs : CondList) (sc : Scope) (r : JsConds × Scope), toConds ae buf cs sc = some r → ScOk sc →
+      r.2.stack = sc.stack ∧ sc.n ≤ r.2.n
+    | .nil, sc, r, h, hs => by
+      simp only [toConds, Option.some.injEq] at h; subst h
+      exact ⟨rfl, Nat.le_refl _⟩
+    | .cons p (some c) body rest, sc, r, h, hs => by
+      unfold toConds at h
+      simp only at h
+      split at h
+      · rename_i j rb hj hb
+        split at h
+        · rename_i rr hr
+          simp only [Option.some.injEq] at h; subst h
+          obtain ⟨a1, a2⟩ := toBlock_scope body sc rb hb hs
+          have hs1 : ScOk rb.2 := ⟨by rw [a1]; exact hs.1, bounded_of_stack hs.2 a1 a2⟩
+          obtain ⟨b1, b2⟩ := toConds_scope rest rb.2 rr hr hs1
+          exact ⟨b1.trans a1, Nat.le_trans a2 b2⟩
+        · cases h
+      · cases h
+    | .cons p none body rest, sc, r, h, hs => by
+      unfold toConds at h
+      simp only at h
+      split at h
+      · rename_i rb hb
+        simp only [Option.some.injEq] at h; subst h
+        exact toBlock_scope body sc rb hb hs
+      · cases h
+end
+
+end
+
+/-! ### the JavaScript environment along a run -/
+
+/-- the output variable holds the text `out` -/
+def BufIs (buf : Bytes) (jenv : JEnv) (out : Bytes) : Prop :=
+  jenv.locals.find? (·.1 == buf) = some (buf, .str out)
+
+/-- from `a` to `b` only the output variable and locals generated after the counter was `lo` changed -/
+def Keeps (buf : Bytes) (lo : Nat) (a b : JEnv) : Prop :=
+  b.optData = a.optData ∧ b.ijData = a.ijData ∧
+  ∀ g, g ≠ buf → (∀ x m, x.contains 36 = false → lo < m → g ≠ Scope.jsname x [] m) →
+    b.locals.find? (·.1 == g) = a.locals.find? (·.1 == g)
+
+theorem Keeps.refl (buf : Bytes) (lo : Nat) (a : JEnv) : Keeps buf lo a a := ⟨rfl, rfl, fun _ _ _ => rfl⟩
+
+theorem Keeps.trans {buf : Bytes} {lo lo' : Nat} {a b c : JEnv} (h1 : Keeps buf lo a b) (h2 : Keeps buf lo' b c)
+    (hl : lo ≤ lo') : Keeps buf lo a c := by
+  refine ⟨h2.1.trans h1.1, h2.2.1.trans h1.2.1, ?_⟩
+  intro g hg hn
+  rw [h2.2.2 g hg (fun x m hx hm => hn x m hx (by omega)), h1.2.2 g hg hn]
+
+theorem Keeps.mono {buf : Bytes} {lo lo' : Nat} {a b : JEnv} (h : Keeps buf lo' a b) (hl : lo ≤ lo') : Keeps buf lo a b :=
+  (Keeps.refl buf lo a).trans h hl
+
+theorem find_setLocal_ne (jenv : JEnv) (x g : Bytes) (v : JVal) (h : g ≠ x) :
+    (setLocal jenv x v).locals.find? (·.1 == g) = jenv.locals.find? (·.1 == g) := by
+  have : (x == g) = false := by simpa using fun e : x = g => h e.symm
+  simp [setLocal, List.find?_cons, this]
+
+theorem keeps_setBuf (buf : Bytes) (lo : Nat) (jenv : JEnv) (v : JVal) : Keeps buf lo jenv (setLocal jenv buf v) :=
+  ⟨rfl, rfl, fun g hg _ => find_setLocal_ne jenv buf g v hg⟩
+
+theorem bufIs_setBuf (buf : Bytes) (jenv : JEnv) (t : Bytes) : BufIs buf (setLocal jenv buf (.str t)) t := by
+  simp [BufIs, setLocal]
+
+/-- the relation survives everything `Keeps` allows, in every scope with the same frames -/
+theorem envRel_keep {buf : Bytes} {sc sc' : Scope} {env : SEnv} {jenv jenv' : JEnv} {lo : Nat}
+    (hrel : EnvRel sc env jenv) (hk : Keeps buf lo jenv jenv') (hb : Bounded sc) (hlo : sc.n ≤ lo)
+    (hbuf : buf.contains 36 = false) (hst : sc'.stack = sc.stack) : EnvRel sc' env jenv' := by
+  intro k hkij hkd
+  have hl : sc'.lookup k = sc.lookup k := by simp [Scope.lookup, hst]
+  rw [hl]
+  have hr := hrel k hkij hkd
+  cases hg : sc.lookup k with
+  | none =>
+    simp only [hg] at hr ⊢
+    rw [hk.1]; exact hr
+  | some g =>
+    simp only [hg] at hr ⊢
+    obtain ⟨kv, hfind, hkv⟩ := hr
+    obtain ⟨m0, hm0, rfl⟩ := bounded_lookup hb hkd hg
+    refine ⟨kv, ?_, hkv⟩
+    rw [hk.2.2 _ ?_ ?_]
+    · exact hfind
+    · intro e
+      have := jsname_dollar k [] m0
+      rw [e, hbuf] at this
+      cases this
+    · intro x m hx hm e
+      have := (jsname_inj_n hkd hx e).2
+      omega
+
+theorem envRel_stack {sc sc' : Scope} {env : SEnv} {jenv : JEnv} (hrel : EnvRel sc env jenv) (hst : sc'.stack = sc.stack) :
+    EnvRel sc' env jenv := by
+  intro k hkij hkd
+  have hl : sc'.lookup k = sc.lookup k := by simp [Scope.lookup, hst]
+  rw [hl]
+  exact hrel k hkij hkd
+
+/-! ### running single statements -/
+
+theorem withVal_ok {o : JOut} {k : JVal → SRes} {e : JEnv} (h : withVal o k = .ok e) : ∃ v, o = .val v ∧ k v = .ok e := by
+  cases o with
+  | val v => exact ⟨v, rfl, h⟩
+  | error => cases h
+  | unspec => cases h
+
+theorem sres_bind_ok {r : SRes} {k : JEnv → SRes} {e : JEnv} (h : r.bind k = .ok e) : ∃ e1, r = .ok e1 ∧ k e1 = .ok e := by
+  cases r with
+  | ok e1 => exact ⟨e1, rfl, h⟩
+  | error => cases h
+  | unspec => cases h
+
+section
+variable (F : Bytes → List Expr → JVal → JOut)
+
+theorem execStmts_append : ∀ (a b : JsStmts) (env : JEnv),
+    execStmts F (a.append b) env = (execStmts F a env).bind (execStmts F b)
+  | .nil, b, env => by simp [JsStmts.append, execStmts, SRes.bind]
+  | .cons s r, b, env => by
+    simp only [JsStmts.append, execStmts]
+    cases execStmt F s env with
+    | ok e1 => simp only [SRes.bind]; exact execStmts_append r b e1
+    | error => rfl
+    | unspec => rfl
+
+theorem execStmts_one (s : JsStmt) (env : JEnv) : execStmts F (.one s) env = execStmt F s env := by
+  simp only [JsStmts.one, execStmts]
+  cases execStmt F s env <;> rfl
+
+/-- `buf += v` on a string buffer: ToString of `v` is appended -/
+theorem appendTo_ok {buf : Bytes} {jenv jenv' : JEnv} {out : Bytes} {v : JVal} (hb : BufIs buf jenv out)
+    (h : appendTo jenv buf v = .ok jenv') : ∃ s, toStr? v = some s ∧ jenv' = setLocal jenv buf (.str (out ++ s)) := by
+  unfold appendTo at h
+  have he : eval jenv (.local buf) = .val (.str out) := by
+    unfold BufIs at hb
+    simp [eval, hb]
+  rw [he] at h
+  simp only [withVal] at h
+  obtain ⟨r, hr, hk⟩ := withVal_ok h
+  simp only [SRes.ok.injEq] at hk
+  subst hk
+  cases hv : toStr? v with
+  | none =>
+    cases v <;> simp [binop, isStr, toStr?] at hr hv
+  | some s =>
+    refine ⟨s, rfl, ?_⟩
+    have : binop .add (.str out) v = .val (.str (out ++ s)) := by
+      cases v <;> simp [binop, isStr, toStr?] at hv ⊢ <;> simp [hv]
+    rw [this] at hr
+    simp only [JOut.val.injEq] at hr
+    subst hr
+    rfl
+
+/-- the calls are strict: a value comes out only if a value went in -/
+theorem applyCalls_val : ∀ (ds : List Directive) (o : JOut) (r : JVal), applyCalls F ds o = .val r → ∃ jv, o = .val jv
+  | [], o, r, h => ⟨r, h⟩
+  | d :: ds, o, r, h => by
+    have h' : applyCalls F ds (o.bind (F d.name d.args)) = .val r := h
+    obtain ⟨x, hx⟩ := applyCalls_val ds _ r h'
+    cases o with
+    | val v => exact ⟨v, rfl⟩
+    | error => cases hx
+    | unspec => cases hx
+
+/-- what the generated print expression computes is what the Go renderer's directive loop computes -/
+theorem applyCalls_goPrint (ae : Autoescape) (dirs : List Directive) (ck : Bool × List Directive)
+    (hc : collectDirs dirs = some ck) (hok : dirs.all dirOk = true) (x : JOut) :
+    C04b.goPrint (liftF F) Gen.directiveTable ae dirs x = some (applyCalls F (printDirs ae ck.1 ck.2) x) := by
+  have hgo : ∀ d ∈ dirs, (Directives.lookup Gen.directiveTable d.name).isSome := by
+    intro d hd
+    have := List.all_eq_true.mp hok d hd
+    simp only [dirOk, Bool.and_eq_true] at this
+    exact this.2
+  rw [← C04b.print_directives_agree (liftF F) ae dirs x (by simp [hc]) hgo]
+  unfold C04b.jsPrint
+  rw [hc, Option.map_some, C04b.denote_applyDirs]
+  rfl
+
+end
+
+/-! ### the induction: one lemma per node kind -/
+
+section
+variable (F : Bytes → List Expr → JVal → JOut) (ae : Autoescape) (buf : Bytes)
+
+def CmdOk (c : Cmd) : Prop :=
+  ∀ (sc : Scope) (r : JsStmts × Scope) (env : SEnv) (jenv jenv' : JEnv) (out : Bytes),
+    toCmd ae buf c sc = some r → ScOk sc → EnvRel sc env jenv → BufIs buf jenv out →
+    execStmts F r.1 jenv = .ok jenv' →
+    ∃ text env', refCmd F ae c env = .val (text, env') ∧ EnvRel r.2 env' jenv' ∧ BufIs buf jenv' (out ++ text) ∧
+      Keeps buf sc.n jenv jenv'
+
+def BlockOk (b : Block) : Prop :=
+  ∀ (sc : Scope) (r : JsStmts × Scope) (env : SEnv) (jenv jenv' : JEnv) (out : Bytes),
+    toBlock ae buf b sc = some r → ScOk sc → EnvRel sc env jenv → BufIs buf jenv out →
+    execStmts F r.1 jenv = .ok jenv' →
+    ∃ text, refBlock F ae b env = .val text ∧ BufIs buf jenv' (out ++ text) ∧ Keeps buf sc.n jenv jenv'
+
+def CmdsOk (cs : CmdList) : Prop :=
+  ∀ (sc : Scope) (r : JsStmts × Scope) (env : SEnv) (jenv jenv' : JEnv) (out : Bytes),
+    toCmds ae buf cs sc = some r → ScOk sc → EnvRel sc env jenv → BufIs buf jenv out →
+    execStmts F r.1 jenv = .ok jenv' →
+    ∃ text, refCmds F ae cs env = .val text ∧ BufIs buf jenv' (out ++ text) ∧ Keeps buf sc.n jenv jenv'
+
+def CondsOk (cs : CondList) : Prop :=
+  ∀ (sc : Scope) (r : JsConds × Scope) (env : SEnv) (jenv jenv' : JEnv) (out : Bytes),
+    toConds ae buf cs sc = some r → ScOk sc → EnvRel sc env jenv → BufIs buf jenv out →
+    execConds F r.1 jenv = .ok jenv' →
+    ∃ text, refConds F ae cs env = .val text ∧ BufIs buf jenv' (out ++ text) ∧ Keeps buf sc.n jenv jenv'
+
+variable (hbuf : buf.contains 36 = false)
+include hbuf
+
+theorem rawText_ok (p : Nat) (t : Bytes) : CmdOk F ae buf (.rawText p t) := by
+  intro sc r env jenv jenv' out h hs hrel hb hx
+  simp only [toCmd, Option.some.injEq] at h; subst h
+  rw [execStmts_one] at hx
+  simp only [execStmt] at hx
+  obtain ⟨s, hs', rfl⟩ := appendTo_ok hb hx
+  simp only [toStr?, Option.some.injEq] at hs'
+  subst hs'
+  refine ⟨t, env, by simp [refCmd], ?_, bufIs_setBuf _ _ _, keeps_setBuf _ _ _ _⟩
+  exact envRel_keep hrel (keeps_setBuf buf sc.n jenv _) hs.2 (Nat.le_refl _) hbuf rfl
+
+theorem print_ok (p : Nat) (arg : Expr) (dirs : List Directive) : CmdOk F ae buf (.print p arg dirs) := by
+  intro sc r env jenv jenv' out h hs hrel hb hx
+  unfold toCmd at h
+  split at h
+  · rename_i hok
+    split at h
+    · rename_i j ck hj hc
+      simp only [Option.some.injEq] at h; subst h
+      rw [execStmts_one] at hx
+      simp only [execStmt] at hx
+      obtain ⟨rv, hrv, hx⟩ := withVal_ok hx
+      obtain ⟨jv, hjv⟩ := applyCalls_val F _ _ _ hrv
+      obtain ⟨v, hv, hvj⟩ := C04c.gen_correct_refs_partial sc env jenv hrel arg j jv hj hjv
+      obtain ⟨s, hs', rfl⟩ := appendTo_ok hb hx
+      have hgo := applyCalls_goPrint F ae dirs ck hc hok (.val jv)
+      rw [hjv] at hrv
+      rw [hrv] at hgo
+      refine ⟨s, env, ?_, ?_, bufIs_setBuf _ _ _, keeps_setBuf _ _ _ _⟩
+      · simp only [refCmd, hv, Spec.Eval.Out.bind, refPrint, hvj, hgo, hs']
+      · exact envRel_keep hrel (keeps_setBuf buf sc.n jenv _) hs.2 (Nat.le_refl _) hbuf rfl
+    · cases h
+  · cases h
+
+theorem letValue_ok (p : Nat) (x : Bytes) (e : Expr) : CmdOk F ae buf (.letValue p x e) := by
+  intro sc r env jenv jenv' out h hs hrel hb hx
+  unfold toCmd at h
+  split at h
+  · cases h
+  · rename_i hxd
+    have hxd' : x.contains 36 = false := by simpa using hxd
+    split at h
+    · rename_i j hj
+      simp only [Option.some.injEq] at h; subst h
+      rw [execStmts_one] at hx
+      simp only [execStmt] at hx
+      obtain ⟨jv, hjv, hx⟩ := withVal_ok hx
+      simp only [SRes.ok.injEq] at hx
+      subst hx
+      obtain ⟨v, hv, hvj⟩ := C04c.gen_correct_refs_partial sc env jenv hrel e j jv hj hjv
+      obtain ⟨hne, hbd⟩ := hs
+      cases hst : sc.stack with
+      | nil => exact absurd hst hne
+      | cons f st =>
+        have hg : (sc.makevar x).1 = Scope.jsname x [] (sc.n + 1) := rfl
+        have hgb : (sc.makevar x).1 ≠ buf := by
+          intro e'
+          have := jsname_dollar x [] (sc.n + 1)
+          rw [← hg, e', hbuf] at this
+          cases this
+        refine ⟨[], env.bind x v, by simp [refCmd, hv, Spec.Eval.Out.bind], ?_, ?_, ?_⟩
+        · exact C04c.envRel_let sc env jenv f st hst (bounded_shape hbd) x hxd' v jv hrel hvj
+        · unfold BufIs
+          rw [find_setLocal_ne jenv _ buf jv hgb.symm, List.append_nil]
+          exact hb
+        · refine ⟨rfl, rfl, ?_⟩
+          intro g _ hn
+          exact find_setLocal_ne jenv _ g jv (hn x (sc.n + 1) hxd' (Nat.lt_succ_self _))
+    · cases h
+
+theorem ifc_ok (p : Nat) (conds : CondList) (ih : CondsOk F ae buf conds) : CmdOk F ae buf (.ifc p conds) := by
+  intro sc r env jenv jenv' out h hs hrel hb hx
+  unfold toCmd at h
+  split at h
+  · rename_i rc hrc
+    simp only [Option.some.injEq] at h; subst h
+    rw [execStmts_one] at hx
+    simp only [execStmt] at hx
+    obtain ⟨text, ht, hb', hk⟩ := ih sc rc env jenv jenv' out hrc hs hrel hb hx
+    obtain ⟨h1, _⟩ := toConds_scope ae buf conds sc rc hrc hs
+    exact ⟨text, env, by simp [refCmd, ht, Spec.Eval.Out.bind],
+      envRel_keep hrel hk hs.2 (Nat.le_refl _) hbuf h1, hb', hk⟩
+  · cases h
+
+omit hbuf in
+theorem lookup_push (sc : Scope) (k : Bytes) : sc.push.lookup k = sc.lookup k := by
+  simp [Scope.push, Scope.lookup, Scope.lookupIn, frameGet?]
+
+omit hbuf in
+theorem block_ok (p : Nat) (cmds : CmdList) (ih : CmdsOk F ae buf cmds) : BlockOk F ae buf (.mk p cmds) := by
+  intro sc r env jenv jenv' out h hs hrel hb hx
+  unfold toBlock at h
+  split at h
+  · rename_i rc hrc
+    simp only [Option.some.injEq] at h; subst h
+    have hrel' : EnvRel sc.push env jenv := by
+      intro k hk hd
+      rw [lookup_push]
+      exact hrel k hk hd
+    obtain ⟨text, ht, hb', hk⟩ := ih sc.push rc env jenv jenv' out hrc (scOk_push hs.2) hrel' hb hx
+    exact ⟨text, by simp only [refBlock]; exact ht, hb', hk⟩
+  · cases h
+
+omit hbuf in
+theorem cmds_nil_ok : CmdsOk F ae buf .nil := by
+  intro sc r env jenv jenv' out h hs hrel hb hx
+  simp only [toCmds, Option.some.injEq] at h; subst h
+  simp only [execStmts, SRes.ok.injEq] at hx
+  subst hx
+  exact ⟨[], by simp [refCmds], by simpa using hb, Keeps.refl _ _ _⟩
+
+omit hbuf in
+theorem cmds_cons_ok (c : Cmd) (rest : CmdList) (ih1 : CmdOk F ae buf c) (ih2 : CmdsOk F ae buf rest) :
+    CmdsOk F ae buf (.cons c rest) := by
+  intro sc r env jenv jenv' out h hs hrel hb hx
+  unfold toCmds at h
+  split at h
+  · cases h
+  · rename_i r1 h1
+    split at h
+    · cases h
+    · rename_i r2 h2
+      simp only [Option.some.injEq] at h; subst h
+      rw [execStmts_append] at hx
+      obtain ⟨jenv1, hx1, hx2⟩ := sres_bind_ok hx
+      obtain ⟨t1, env1, ht1, hrel1, hb1, hk1⟩ := ih1 sc r1 env jenv jenv1 out h1 hs hrel hb hx1
+      obtain ⟨a1, _, a3⟩ := toCmd_scope ae buf c sc r1 h1 hs
+      obtain ⟨t2, ht2, hb2, hk2⟩ := ih2 r1.2 r2 env1 jenv1 jenv' (out ++ t1) h2 a1 hrel1 hb1 hx2
+      refine ⟨t1 ++ t2, ?_, by rw [← List.append_assoc]; exact hb2, hk1.trans hk2 a3⟩
+      simp [refCmds, ht1, ht2, Spec.Eval.Out.bind]
+
+omit hbuf in
+theorem conds_nil_ok : CondsOk F ae buf .nil := by
+  intro sc r env jenv jenv' out h hs hrel hb hx
+  simp only [toConds, Option.some.injEq] at h; subst h
+  simp only [execConds, SRes.ok.injEq] at hx
+  subst hx
+  exact ⟨[], by simp [refConds], by simpa using hb, Keeps.refl _ _ _⟩
+
+omit hbuf in
+theorem conds_some_ok (p : Nat) (c : Expr) (body : Block) (rest : CondList) (ih1 : BlockOk F ae buf body)
+    (ih2 : CondsOk F ae buf rest) : CondsOk F ae buf (.cons p (some c) body rest) := by
+  intro sc r env jenv jenv' out h hs hrel hb hx
+  unfold toConds at h
+  simp only at h
+  split at h
+  · rename_i j rb hj hbk
+    split at h
+    · rename_i rr hr
+      simp only [Option.some.injEq] at h; subst h
+      simp only [execConds] at hx
+      obtain ⟨jv, hjv, hx⟩ := withVal_ok hx
+      obtain ⟨v, hv, hvj⟩ := C04c.gen_correct_refs_partial sc env jenv hrel c j jv hj hjv
+      have htr := C04c.truthy_toBoolean v jv hvj
+      by_cases hc : toBoolean jv = true
+      · simp only [hc, if_true] at hx
+        obtain ⟨text, ht, hb', hk⟩ := ih1 sc rb env jenv jenv' out hbk hs hrel hb hx
+        refine ⟨text, ?_, hb', hk⟩
+        simp [refConds, hv, Spec.Eval.Out.bind, htr, hc, ht]
+      · simp only [hc, Bool.false_eq_true, if_false] at hx
+        obtain ⟨a1, a2⟩ := toBlock_scope ae buf body sc rb hbk hs
+        have hs1 : ScOk rb.2 := ⟨by rw [a1]; exact hs.1, bounded_of_stack hs.2 a1 a2⟩
+        obtain ⟨text, ht, hb', hk⟩ := ih2 rb.2 rr env jenv jenv' out hr hs1 (envRel_stack hrel a1) hb hx
+        refine ⟨text, ?_, hb', hk.mono a2⟩
+        simp [refConds, hv, Spec.Eval.Out.bind, htr, hc, ht]
+    · cases h
+  · cases h
+
+omit hbuf in
+theorem conds_else_ok (p : Nat) (body : Block) (rest : CondList) (ih1 : BlockOk F ae buf body) :
+    CondsOk F ae buf (.cons p none body rest) := by
+  intro sc r env jenv jenv' out h hs hrel hb hx
+  unfold toConds at h
+  simp only at h
+  split at h
+  · rename_i rb hbk
+    simp only [Option.some.injEq] at h; subst h
+    simp only [execConds] at hx
+    obtain ⟨text, ht, hb', hk⟩ := ih1 sc rb env jenv jenv' out hbk hs hrel hb hx
+    exact ⟨text, by simp only [refConds]; exact ht, hb', hk⟩
+  · cases h
+
+mutual
+  theorem cmd_ok : ∀ c : Cmd, CmdOk F ae buf c
+    | .rawText p t => rawText_ok F ae buf hbuf p t
+    | .print p arg dirs => print_ok F ae buf hbuf p arg dirs
+    | .letValue p x e => letValue_ok F ae buf hbuf p x e
+    | .ifc p conds => ifc_ok F ae buf hbuf p conds (conds_ok conds)
+    | .msg .. => fun _ _ _ _ _ _ h => by simp [toCmd] at h
+    | .css .. => fun _ _ _ _ _ _ h => by simp [toCmd] at h
+    | .debugger .. => fun _ _ _ _ _ _ h => by simp [toCmd] at h
+    | .log .. => fun _ _ _ _ _ _ h => by simp [toCmd] at h
+    | .forc .. => fun _ _ _ _ _ _ h => by simp [toCmd] at h
+    | .switch .. => fun _ _ _ _ _ _ h => by simp [toCmd] at h
+    | .call .. => fun _ _ _ _ _ _ h => by simp [toCmd] at h
+    | .letContent .. => fun _ _ _ _ _ _ h => by simp [toCmd] at h
+    | .headerParam .. => fun _ _ _ _ _ _ h => by simp [toCmd] at h
+    | .namespace .. => fun _ _ _ _ _ _ h => by simp [toCmd] at h
+    | .template .. => fun _ _ _ _ _ _ h => by simp [toCmd] at h
+    | .soyDoc .. => fun _ _ _ _ _ _ h => by simp [toCmd] at h
+  theorem block_ok' : ∀ b : Block, BlockOk F ae buf b
+    | .mk p cmds => block_ok F ae buf p cmds (cmds_ok cmds)
+  theorem cmds_ok : ∀ cs : CmdList, CmdsOk F ae buf cs
+    | .nil => cmds_nil_ok F ae buf
+    | .cons c rest => cmds_cons_ok F ae buf c rest (cmd_ok c) (cmds_ok rest)
+  theorem conds_ok : ∀ cs : CondList, CondsOk F ae buf cs
+    | .nil => conds_nil_ok F ae buf
+    | .cons p (some c) body rest => conds_some_ok F ae buf p c body rest (block_ok' body) (conds_ok rest)
+    | .cons p none body rest => conds_else_ok F ae buf p body rest (block_ok' body)
+end
+
+end
+
+/-! ## the theorem -/
+
+section
+variable (F : Bytes → List Expr → JVal → JOut) (ae : Autoescape) (buf : Bytes)
+
+/-- PARTIAL (C04, command level).  For a list of commands of the fragment — raw text, `{print}` with
+    directives, `{let $x: e /}`, `{if}/{elseif}/{else}`, over the expressions of Props/C04c — met in the
+    generator scope `sc` with output variable `buf`:
+    (a) the generator model writes exactly the statements `st` of the translation;
+    (b) whenever these statements run to completion (Spec/JsStmt; every interpretation `F` of the
+        directive functions) from a JavaScript environment related to the Soy environment `env`, in
+        which `buf` holds `out`, the specification renders the commands in `env` to a text, and `buf`
+        then holds `out` followed by exactly this text. -/
+theorem gen_correct_cmds_partial (hbuf : buf.contains 36 = false) (sk : List Bytes → List Bytes) (o : Options)
+    (cmds : CmdList) (sc : Scope) (r : JsStmts × Scope) (h : toCmds ae buf cmds sc = some r) :
+    (∀ ind, Runs (At ind buf ae sc) (At ind buf ae r.2) (walkCmds sk o cmds) (renderStmts ind r.1)) ∧
+    (∀ (env : SEnv) (jenv jenv' : JEnv) (out : Bytes), ScOk sc → EnvRel sc env jenv → BufIs buf jenv out →
+      execStmts F r.1 jenv = .ok jenv' →
+      ∃ text, refCmds F ae cmds env = .val text ∧ BufIs buf jenv' (out ++ text)) := by
+  refine ⟨walkCmds_renders sk o ae buf cmds sc r h, ?_⟩
+  intro env jenv jenv' out hs hrel hb hx
+  obtain ⟨text, ht, hb', _⟩ := cmds_ok F ae buf hbuf cmds sc r env jenv jenv' out h hs hrel hb hx
+  exact ⟨text, ht, hb'⟩
+
+/-- the body of a template: entered with `opt_data` the JSON image of the data, after
+    `var output = '';`, in a fresh frame -/
+theorem gen_correct_body_partial (body : CmdList) (n : Nat) (r : JsStmts × Scope)
+    (h : toCmds ae b!"output" body ⟨[[]], n⟩ = some r) (env : SEnv) (optData : List (Bytes × JVal))
+    (ij : Option (List (Bytes × JVal))) (hdata : C04c.toJsKvs env.vars = some optData) (jenv' : JEnv)
+    (hx : execStmts F r.1 ⟨optData, ij, [(b!"output", .str [])]⟩ = .ok jenv') :
+    ∃ text, refCmds F ae body env = .val text ∧ BufIs b!"output" jenv' text := by
+  have hs : ScOk ⟨[[]], n⟩ := by
+    refine ⟨by simp, ?_⟩
+    intro f hf kv hkv
+    simp only [List.mem_singleton] at hf
+    subst hf
+    cases hkv
+  have hrel : EnvRel ⟨[[]], n⟩ env ⟨optData, ij, [(b!"output", .str [])]⟩ :=
+    C04c.envRel_params _ env _ (fun k => by simp [Scope.lookup, Scope.lookupIn, frameGet?]) hdata
+  obtain ⟨text, ht, hb', _⟩ := cmds_ok F ae b!"output" (by decide) body _ r env _ jenv' [] h hs hrel
+    (by simp [BufIs]) hx
+  exact ⟨text, ht, by simpa using hb'⟩
+
+end
+
+/-! ## without directives the reference IS Spec/Eval.renderCmds -/
+
+mutual
+  /-- no print of the command has a directive -/
+  def plainCmd : Cmd → Bool
+    | .print _ _ dirs => dirs.isEmpty
+    | .ifc _ conds => plainConds conds
+    | _ => true
+  def plainBlock : Block → Bool
+    | .mk _ cmds => plainCmds cmds
+  def plainCmds : CmdList → Bool
+    | .nil => true
+    | .cons c r => plainCmd c && plainCmds r
+  def plainConds : CondList → Bool
+    | .nil => true
+    | .cons _ _ body rest => plainBlock body && plainConds rest
+end
+
+theorem out_bind_val {α β : Type} {o : Out α} {f : α → Out β} {b : β} (h : o.bind f = .val b) : ∃ a, o = .val a ∧ f a = .val b := by
+  cases o with
+  | val a => exact ⟨a, rfl, h⟩
+  | error => cases h
+  | unspec => cases h
+
+/-- LIBRARY OBLIGATION (not proved here): soy.$$escapeHtml is Spec/Eval's htmlEscape of ToString -/
+def EscapeHtmlIs (F : Bytes → List Expr → JVal → JOut) : Prop :=
+  ∀ jv, F escapeHtmlName [] jv = match toStr? jv with
+    | some s => .val (.str (htmlEscape s))
+    | none => .unspec
+
+section
+variable (F : Bytes → List Expr → JVal → JOut) (ae : Autoescape) (hesc : EscapeHtmlIs F)
+variable (reg : Registry.Reg) (hasBundle : Bool) (entry : Spec.Eval.Binds)
+variable (call : Registry.Tmpl → Spec.Eval.CallEnv → Out Bytes)
+include hesc
+
+theorem refPrint_nil (v : Val) (s : Bytes) (h : refPrint F ae [] v = .val s) :
+    ∃ s0, Spec.Eval.showVal v = .val s0 ∧ s = if ae != .off then htmlEscape s0 else s0 := by
+  unfold refPrint at h
+  cases hv : toJsV v with
+  | none => simp [hv] at h
+  | some jv =>
+    simp only [hv] at h
+    have hgo : C04b.goPrint (liftF F) Gen.directiveTable ae [] (.val jv) =
+        some (if ae != .off then F escapeHtmlName [] jv else .val jv) := by
+      simp only [C04b.goPrint, C04b.goRun, Option.map_some, liftF, JOut.bind]
+    rw [hgo] at h
+    by_cases hae : (ae != .off) = true
+    · simp only [hae, if_true] at h ⊢
+      rw [hesc jv] at h
+      cases hs : toStr? jv with
+      | none => simp [hs] at h
+      | some s0 =>
+        rw [hs] at h
+        simp only [toStr?, Out.val.injEq] at h
+        exact ⟨s0, C04c.showVal_toStr v jv s0 hv hs, h.symm⟩
+    · simp only [hae, Bool.false_eq_true, if_false] at h ⊢
+      cases hs : toStr? jv with
+      | none => simp [hs] at h
+      | some s0 =>
+        simp only [hs, Out.val.injEq] at h
+        exact ⟨s0, C04c.showVal_toStr v jv s0 hv hs, h.symm⟩
+
+mutual
+  theorem ref_le_spec_cmd : ∀ (c : Cmd) (env : SEnv) (r : Bytes × SEnv), plainCmd c = true →
+      refCmd F ae c env = .val r → Spec.Eval.renderCmd reg hasBundle (ae != .off) entry call c env = .val r
+    | .rawText p t, env, r, _, h => by
+      rw [Spec.Eval.renderCmd]
+      simpa [refCmd] using h
+    | .print p arg dirs, env, r, hp, h => by
+      have hd : dirs = [] := by simpa [plainCmd] using hp
+      subst hd
+      rw [Spec.Eval.renderCmd]
+      simp only [refCmd] at h
+      obtain ⟨v, hv, h⟩ := out_bind_val h
+      obtain ⟨s, hs, h⟩ := out_bind_val h
+      obtain ⟨s0, hs0, rfl⟩ := refPrint_nil F ae hesc v s hs
+      simp only [Out.val.injEq] at h
+      subst h
+      simp [hv, hs0, Spec.Eval.Out.bind]
+    | .letValue p x e, env, r, _, h => by
+      rw [Spec.Eval.renderCmd]
+      simpa [refCmd] using h
+    | .ifc p conds, env, r, hp, h => by
+      rw [Spec.Eval.renderCmd]
+      simp only [refCmd] at h
+      obtain ⟨out, ho, h⟩ := out_bind_val h
+      have := ref_le_spec_conds conds env out (by simpa [plainCmd] using hp) ho
+      simp [this, Spec.Eval.Out.bind, h]
+    | .msg .., _, _, _, h => by simp [refCmd] at h
+    | .css .., _, _, _, h => by simp [refCmd] at h
+    | .debugger .., _, _, _, h => by simp [refCmd] at h
+    | .log .., _, _, _, h => by simp [refCmd] at h
+    | .forc .., _, _, _, h => by simp [refCmd] at h
+    | .switch .., _, _, _, h => by simp [refCmd] at h
+    | .call .., _, _, _, h => by simp [refCmd] at h
+    | .letContent .., _, _, _, h => by simp [refCmd] at h
+    | .headerParam .., _, _, _, h => by simp [refCmd] at h
+    | .namespace .., _, _, _, h => by simp [refCmd] at h
+    | .template .., _, _, _, h => by simp [refCmd] at h
+    | .soyDoc .., _, _, _, h => by simp [refCmd] at h
+  theorem ref_le_spec_block : ∀ (b : Block) (env : SEnv) (out : Bytes), plainBlock b = true →
+      refBlock F ae b env = .val out → Spec.Eval.renderBlock reg hasBundle (ae != .off) entry call b env = .val out
+    | .mk p cmds, env, out, hp, h => by
+      rw [Spec.Eval.renderBlock]
+      exact ref_le_spec_cmds cmds env out (by simpa [plainBlock] using hp) (by simpa [refBlock] using h)
+  theorem ref_le_spec_cmds : ∀ (cs : CmdList) (env : SEnv) (out : Bytes), plainCmds cs = true →
+      refCmds F ae cs env = .val out → Spec.Eval.renderCmds reg hasBundle (ae != .off) entry call cs env = .val out
+    | .nil, env, out, _, h => by
+      rw [Spec.Eval.renderCmds]
+      simpa [refCmds] using h
+    | .cons c rest, env, out, hp, h => by
+      rw [Spec.Eval.renderCmds]
+      simp only [plainCmds, Bool.and_eq_true] at hp
+      simp only [refCmds] at h
+      obtain ⟨r1, h1, h⟩ := out_bind_val h
+      obtain ⟨more, h2, h⟩ := out_bind_val h
+      rw [ref_le_spec_cmd c env r1 hp.1 h1]
+      simp only [Spec.Eval.Out.bind]
+      rw [ref_le_spec_cmds rest r1.2 more hp.2 h2]
+      exact h
+  theorem ref_le_spec_conds : ∀ (cs : CondList) (env : SEnv) (out : Bytes), plainConds cs = true →
+      refConds F ae cs env = .val out → Spec.Eval.renderConds reg hasBundle (ae != .off) entry call cs env = .val out
+    | .nil, env, out, _, h => by
+      rw [Spec.Eval.renderConds]
+      simpa [refConds] using h
+    | .cons p (some c) body rest, env, out, hp, h => by
+      rw [Spec.Eval.renderConds]
+      simp only [plainConds, Bool.and_eq_true] at hp
+      simp only [refConds] at h ⊢
+      obtain ⟨v, hv, h⟩ := out_bind_val h
+      rw [hv]
+      simp only [Spec.Eval.Out.bind]
+      by_cases ht : Spec.Eval.truthy v = true
+      · simp only [ht, if_true] at h ⊢
+        exact ref_le_spec_block body env out hp.1 h
+      · simp only [ht, Bool.false_eq_true, if_false] at h ⊢
+        exact ref_le_spec_conds rest env out hp.2 h
+    | .cons p none body rest, env, out, hp, h => by
+      rw [Spec.Eval.renderConds]
+      simp only [plainConds, Bool.and_eq_true] at hp
+      simp only [refConds] at h ⊢
+      exact ref_le_spec_block body env out hp.1 h
+end
+
+end
+
+section
+variable (F : Bytes → List Expr → JVal → JOut) (ae : Autoescape)
+
+/-- against Spec/Eval.renderCmds itself: directive-free prints, soy.$$escapeHtml read as htmlEscape -/
+theorem gen_correct_cmds_spec (hesc : EscapeHtmlIs F) (buf : Bytes) (hbuf : buf.contains 36 = false)
+    (cmds : CmdList) (hplain : plainCmds cmds = true) (sc : Scope) (r : JsStmts × Scope)
+    (h : toCmds ae buf cmds sc = some r) (env : SEnv) (jenv jenv' : JEnv) (out : Bytes) (hs : ScOk sc)
+    (hrel : EnvRel sc env jenv) (hb : BufIs buf jenv out) (hx : execStmts F r.1 jenv = .ok jenv')
+    (reg : Registry.Reg) (hasBundle : Bool) (entry : Spec.Eval.Binds)
+    (call : Registry.Tmpl → Spec.Eval.CallEnv → Out Bytes) :
+    ∃ text, Spec.Eval.renderCmds reg hasBundle (ae != .off) entry call cmds env = .val text ∧
+      BufIs buf jenv' (out ++ text) := by
+  obtain ⟨text, ht, hb', _⟩ := cmds_ok F ae buf hbuf cmds sc r env jenv jenv' out h hs hrel hb hx
+  exact ⟨text, ref_le_spec_cmds F ae hesc reg hasBundle entry call cmds env text hplain ht, hb'⟩
+
+end
+
+/-! ## non-vacuity -/
+
+/-- `{let $x: $a + 1 /}{if $x > 2}big {let $x: '<' /}{$x}{else}small{/if}{$x |truncate:3}` -/
+def sampleCmds : CmdList :=
+  .cons (.letValue 0 b!"x" (.bin .add 0 (.dataRef 0 b!"a" .nil) (.int 0 1)))
+  (.cons (.ifc 0
+    (.cons 0 (some (.bin .gt 0 (.dataRef 0 b!"x" .nil) (.int 0 2)))
+      (.mk 0 (.cons (.rawText 0 b!"big ") (.cons (.letValue 0 b!"x" (.str 0 b!"'<'" b!"<"))
+        (.cons (.print 0 (.dataRef 0 b!"x" .nil) []) .nil))))
+      (.cons 0 none (.mk 0 (.cons (.rawText 0 b!"small") .nil)) .nil)))
+  (.cons (.print 0 (.dataRef 0 b!"x" .nil) [⟨0, b!"truncate", [.int 0 3]⟩]) .nil))
+
+/-- soy.$$escapeHtml as htmlEscape ∘ ToString; any other library function `f` ↦ "f!" ++ ToString -/
+def sampleF (name : Bytes) (_ : List Expr) (jv : JVal) : JOut :=
+  match toStr? jv with
+  | some s => .val (.str (if name == escapeHtmlName then htmlEscape s else name ++ b!"!" ++ s))
+  | none => .unspec
+
+theorem sampleF_escape : EscapeHtmlIs sampleF := by
+  intro jv
+  simp only [sampleF]
+  cases toStr? jv <;> simp
+
+
+-- the JavaScript the generator model writes for it (autoescaping on, one level of indentation)
+set_option maxRecDepth 8000 in
+example : (toCmds .on b!"output" sampleCmds ⟨[[]], 0⟩).map (fun r => printPieces (renderStmts 1 r.1)) = some
+    b!"  var x$1 = ((opt_data.a) + (1));\n  if (((x$1) > (2))) {\n    output += 'big ';\n    var x$2 = '\\u003C';\n    output += soy.$$escapeHtml(x$2);\n  } else {\n    output += 'small';\n  }\n  output += soy.$$escapeHtml(soy.$$truncate(x$1,3,true));\n" := rfl
+
+def sampleJEnv (a : Int) : JEnv := ⟨[(b!"a", .num a)], none, [(b!"output", .str [])]⟩
+def sampleEnv (a : Int) : SEnv := { vars := [(b!"a", .int a)], loops := [], ij := none, globals := [] }
+
+/-- what the statements leave in `output` -/
+def sampleRun (a : Int) : Option JVal :=
+  match toCmds .on b!"output" sampleCmds ⟨[[]], 0⟩ with
+  | some r =>
+    (match execStmts sampleF r.1 (sampleJEnv a) with
+      | .ok e => (e.locals.find? (·.1 == b!"output")).map (·.2)
+      | _ => none)
+  | none => none
+
+-- the inner `$x` is the fresh local `x$2`; after the block `$x` is `x$1` again
+example : sampleRun 5 = some (.str b!"big &lt;truncate!6") := rfl
+example : sampleRun 0 = some (.str b!"smalltruncate!1") := rfl
+example : refCmds sampleF .on sampleCmds (sampleEnv 5) = .val b!"big &lt;truncate!6" := rfl
+example : refCmds sampleF .on sampleCmds (sampleEnv 0) = .val b!"smalltruncate!1" := rfl
+
+/-- the theorem on the sample: for EVERY `a` the statements complete on, the specification's text is
+    what `output` holds -/
+example (a : Int) (ha : SoyVerif.Spec.JsSem.exact a = true) (jenv' : JEnv) (r : JsStmts × Scope) (h : toCmds .on b!"output" sampleCmds ⟨[[]], 0⟩ = some r)
+    (hx : execStmts sampleF r.1 (sampleJEnv a) = .ok jenv') :
+    ∃ text, refCmds sampleF .on sampleCmds (sampleEnv a) = .val text ∧ BufIs b!"output" jenv' text :=
+  gen_correct_body_partial sampleF .on sampleCmds 0 r h (sampleEnv a) _ none
+    (by simp [sampleEnv, C04c.toJsKvs, C04c.toJsV, ha]) jenv' hx
+
+/-- … and these statements are what the generator model writes: from a state inside a template
+    function (indentation 1, buffer `output`, autoescaping on, a fresh frame) -/
+example : ∀ r, toCmds .on b!"output" sampleCmds ⟨[[]], 0⟩ = some r →
+    ∃ s', walkCmds id {} sampleCmds { indent := 1, bufferName := b!"output", autoescape := .on, scope := ⟨[[]], 0⟩ } =
+      .ok ((), renderStmts 1 r.1, s') ∧ s'.scope = r.2 := by
+  intro r h
+  obtain ⟨s', h1, h2⟩ := (gen_correct_cmds_partial sampleF .on b!"output" (by decide) id {} sampleCmds _ r h).1 1
+    { indent := 1, bufferName := b!"output", autoescape := .on, scope := ⟨[[]], 0⟩ } ⟨rfl, rfl, rfl, rfl⟩
+  exact ⟨s', h1, h2.2.2.2⟩
+
+/-- the semantics has teeth: had the generator reused `x$1` for the inner `{let $x}` (no fresh name:
+    a `var` is function-scoped), the print after the `{if}` would see the inner value -/
+def badStmts : JsStmts :=
+  .cons (.var b!"x$1" (.bin .add (.optData b!"a") (.num 1)))
+  (.cons (.ifs (.cons (.bin .gt (.local b!"x$1") (.num 2))
+      (.cons (.appendLit b!"output" b!"big ") (.cons (.var b!"x$1" (.str b!"<"))
+        (.cons (.append b!"output" (.local b!"x$1") [escapeHtmlDir]) .nil)))
+      (.els (.cons (.appendLit b!"output" b!"small") .nil))))
+  (.cons (.append b!"output" (.local b!"x$1") [⟨0, b!"truncate", [.int 0 3]⟩, escapeHtmlDir]) .nil))
+
+example : (match execStmts sampleF badStmts (sampleJEnv 5) with
+    | .ok e => (e.locals.find? (·.1 == b!"output")).map (·.2)
+    | _ => none) = some (.str b!"big &lt;truncate!&lt;") := rfl
+
+/-! ## what is proved, and what remains outside
+
+  PROVED, for command lists built from raw text, `{print e |d…}` (directive arguments literal, every
+  directive known to both backends), `{let $x: e /}`, `{if}/{elseif}/{else}` (nested at will), with `e`
+  in the expression fragment of Props/C04c (literals, arithmetic / comparison / logic, `?:`, `?:`-elvis,
+  variables and parameters with `.k` / `[i]` / `?.k` accesses, length / isNonnull / floor / ceiling /
+  round / min / max; no floats, integers a double holds exactly):
+    * `walkCmds_renders` — the generator model writes exactly `renderStmts` of the translation;
+    * `gen_correct_cmds_partial` / `gen_correct_body_partial` — running these statements appends to
+      the output variable what `refCmds` renders; variables: `{let}` inside a branch gets a FRESH
+      JavaScript local (counter in the name, `jsname_inj_n`), so that after the branch — where
+      JavaScript still sees the branch's `var`s — every visible Soy variable is still held by its own
+      local (`envRel_keep`);
+    * `ref_le_spec_cmds` / `gen_correct_cmds_spec` — without print directives and with
+      soy.$$escapeHtml read as `htmlEscape ∘ ToString` (`EscapeHtmlIs`, a LIBRARY obligation),
+      `refCmds` is Spec/Eval.renderCmds, the specification C02Spec proves the Go interpreter against.
+  DIRECTION: "if the JavaScript completes, the specification yields that text".  Not shown: that
+  the JavaScript completes whenever the specification yields a text (it does not always: a print
+  of a list or a map is text in Soy and `unspec` here).
+
+  OUTSIDE (no theorem at the command level): `{foreach}` / `{for}` (loops: the statement semantics
+  has no loop yet), `{switch}`, `{call}` (needs a semantics of the generated FUNCTIONS and of
+  soy.$$augmentMap), `{msg}` (placeholders, plural), `{let}` / `{param}` with content (a second
+  output variable), `{css}`, `{log}`, `{debugger}`, `$ij`, globals, print directives with
+  non-literal arguments, the template header (`opt_data = opt_data || {}`, `return output`) and
+  the file level (namespaces, goog.provide / ES6 imports — covered for SHAPE by C14, not for meaning). -/
+
 end SoyVerif.Props.C04d
